@@ -32,18 +32,29 @@ type trimCase struct {
 
 var trimCache = map[string]*builtG{}
 
-func trimGrammar(toks []int, lm, rm []string) []gnode {
+func trimGrammar(toks []int, lm, rm []string) []gnode { return trimGrammarSfx(toks, lm, rm, false) }
+
+// the layout of TrimMC!GrammarOf: a token is Choice(SeqOf(t, x), t) with sfx, Choice(t) without
+func trimGrammarSfx(toks []int, lm, rm []string, sfx bool) []gnode {
 	k := len(toks)
-	G := make([]gnode, 0, 3*k+2)
+	G := make([]gnode, 0, 6*k+2)
 	var items []int
 	for i := 0; i < k; i++ {
+		b := 6 * i
 		G = append(G, gnode{K: "term", Ch: toks[i], Name: termName(toks[i]), Kids: []int{}})
-		G = append(G, gnode{K: "ltrim", Mode: lm[i], Kids: []int{3*i + 1}})
-		G = append(G, gnode{K: "rtrim", Mode: rm[i], Kids: []int{3*i + 2}})
-		items = append(items, 3*i+3)
+		G = append(G, gnode{K: "term", Ch: 'x', Name: termName('x'), Kids: []int{}})
+		G = append(G, gnode{K: "seq", Mode: "of", Kids: []int{b + 1, b + 2}})
+		if sfx {
+			G = append(G, gnode{K: "choice", Kids: []int{b + 3, b + 1}})
+		} else {
+			G = append(G, gnode{K: "choice", Kids: []int{b + 1}})
+		}
+		G = append(G, gnode{K: "ltrim", Mode: lm[i], Kids: []int{b + 4}})
+		G = append(G, gnode{K: "rtrim", Mode: rm[i], Kids: []int{b + 5}})
+		items = append(items, b+6)
 	}
 	G = append(G, gnode{K: "end", Kids: []int{}})
-	items = append(items, 3*k+1)
+	items = append(items, 6*k+1)
 	G = append(G, gnode{K: "seq", Mode: "of", Kids: items})
 	return G
 }
@@ -191,7 +202,7 @@ func trimMain(mode string, a args) {
 		emit := func(toks []int, gaps [][]int, lm, rm []string, base int) {
 			content := trimText(toks, gaps)
 			t := &tracer{budget: 100000, quiet: true}
-			obs, _ := trimObserve(trimGrammar(toks, lm, rm), content, base, t)
+			obs, _ := trimObserve(trimGrammarSfx(toks, lm, rm, (len(content)+base)%2 == 0), content, base, t)
 			e := J{"toks": toks, "gaps": gaps, "lm": lm, "rm": rm, "B": base}
 			for k, v := range obs {
 				e[k] = v
